@@ -4421,6 +4421,7 @@ class ParseCtx:
                 'r': '\r',
                 't': '\t',
                 'b': '\b',
+                '0': '\0',
                 '\'': '\''
             }.get(char_const[2], char_const[2])
 
